@@ -532,7 +532,7 @@ impl Module for M {
                         Image::new(&s2, Point::new(1, 1)).draw(&mut d).unwrap();
                         let allocs = alloc_arm(false);
                         ctx.expect(allocs == 0, "C08:heap-allocation", || format!("{}", allocs));
-                        ctx.expect(bb.size.width <= 5 && bb.size.height <= 3, "C08:sub-image-larger-than-parent", || fmt_rect(&bb));
+                        ctx.expect(bb.is_zero_sized() || (bb.size.width <= 5 && bb.size.height <= 3), "C08:sub-image-larger-than-parent", || fmt_rect(&bb));
                         format!("ok bb={} n={}", fmt_rect(&bb), d.n)
                     }
                     other => panic!("unknown reject kind {}", other),
